@@ -93,6 +93,14 @@ func craft(typ byte, payload []byte, restarts []int, szDelta int, objIDLen int) 
 	blk = append(blk, byte(len(restarts)>>8), byte(len(restarts)))
 	sz := 24 + len(blk) + szDelta
 	blk[1], blk[2], blk[3] = byte(sz>>16), byte(sz>>8), byte(sz)
+	if typ == 'g' {
+		// a log block is deflated behind its 4-byte header
+		var z bytes.Buffer
+		zw := zlib.NewWriter(&z)
+		zw.Write(blk[4:])
+		zw.Close()
+		blk = append(blk[:4:4], z.Bytes()...)
+	}
 	body := append(append([]byte{}, hdr...), blk...)
 	foot := append([]byte{}, hdr...)
 	var offs [5]uint64
@@ -258,6 +266,10 @@ func runHostile(c *ctx) error {
 	ncraft := 400
 	if c.thorough() {
 		ncraft = 8000
+	}
+	tq := []string{"sr:", fmt.Sprintf("sl::%d", ^uint64(0)), "sl:" + hxs("refs/a") + ":9", "sr:" + hxs("refs/b"), "rf:0102030400000000000000000000000000000000", "rf:" + strings.Repeat("01", 20)}
+	for _, w := range truncatedRecordTables() {
+		do("truncated-record", w, tq)
 	}
 	cq := []string{"sr:", "sr:" + hxs("r1"), "sr:" + hxs("r0\x00"), "rf:" + strings.Repeat("6d", 20)}
 	for _, w := range craftedTables(c, ncraft) {
@@ -435,4 +447,69 @@ func zlibBomb(n int) []byte {
 	var cs [4]byte
 	binary.BigEndian.PutUint32(cs[:], crc32.ChecksumIEEE(foot))
 	return append(body, append(foot, cs[:]...)...)
+}
+
+// Every prefix of a valid two-record payload, framed as a well-formed one-block table of each
+// block type (log blocks deflated): a decoder that forgets to report a truncated field is
+// caught at the exact byte where it happens.
+func truncatedRecordTables() [][]byte {
+	var out [][]byte
+	hash := func(b byte) []byte { return bytes.Repeat([]byte{b}, 20) }
+	key := func(prefix int, suffix []byte, vt int) []byte {
+		k := append(putVar(uint64(prefix)), putVar(uint64(len(suffix))<<3|uint64(vt))...)
+		return append(k, suffix...)
+	}
+	str := func(s string) []byte { return append(putVar(uint64(len(s))), s...) }
+	// ref block: a peeled value and a symref
+	var r []byte
+	r = append(r, key(0, []byte("refs/a"), 2)...)
+	r = append(r, putVar(300)...)
+	r = append(r, hash(1)...)
+	r = append(r, hash(2)...)
+	r = append(r, key(5, []byte("b"), 3)...)
+	r = append(r, putVar(1)...)
+	r = append(r, str("refs/heads/target")...)
+	// log block: two full entries
+	lk := func(name string, idx uint64) []byte {
+		k := append([]byte(name), 0)
+		var x [8]byte
+		binary.BigEndian.PutUint64(x[:], ^idx)
+		return append(k, x[:]...)
+	}
+	var g []byte
+	for i, nm := range []string{"refs/a", "refs/b"} {
+		g = append(g, key(0, lk(nm, uint64(5+i)), 1)...)
+		g = append(g, hash(3)...)
+		g = append(g, hash(4)...)
+		g = append(g, str("name")...)
+		g = append(g, str("e@x")...)
+		g = append(g, putVar(1<<40)...)
+		g = append(g, 0xff, 0x10)
+		g = append(g, str("message\n")...)
+	}
+	// obj block: an id with two positions, an id with a long position list
+	var o []byte
+	o = append(o, key(0, []byte{1, 2, 3, 4}, 2)...)
+	o = append(o, putVar(24)...)
+	o = append(o, putVar(300)...)
+	o = append(o, key(2, []byte{9, 9}, 0)...)
+	o = append(o, putVar(9)...)
+	for i := 0; i < 9; i++ {
+		o = append(o, putVar(uint64(1+i))...)
+	}
+	// index block: two entries
+	var x []byte
+	x = append(x, key(0, []byte("refs/m"), 0)...)
+	x = append(x, putVar(0)...)
+	x = append(x, key(5, []byte("z"), 0)...)
+	x = append(x, putVar(4096)...)
+	for _, tc := range []struct {
+		typ byte
+		p   []byte
+	}{{'r', r}, {'g', g}, {'o', o}, {'i', x}} {
+		for cut := 1; cut <= len(tc.p); cut++ {
+			out = append(out, craft(tc.typ, tc.p[:cut], []int{28}, 0, 4))
+		}
+	}
+	return out
 }
